@@ -23,7 +23,8 @@ for d in sorted(glob.glob(os.path.join(HERE, 'seeded', '*', 'meta.json'))):
     n += 1
     caught += ok
     fr = 'caught' if m.get('first_run', '').startswith('caught') else 'missed -> strengthened'
-    first += fr == 'caught'
+    fr += ' (round %s)' % m.get('round', 1)
+    first += fr.startswith('caught')
     what = (m.get('title') or '')[:80] + ' - needs: ' + (m.get('needs') or '')[:150].replace('\n', ' ').replace('|', '/')
     rows.append('| seeded/%s | %s | %s | %s | %s |' % (name, m.get('property'), what, fr, '; '.join(cells)))
 summary = ('%d independently written changes (sub-agents given only the property text and a scratch worktree): %d caught '
